@@ -6,7 +6,7 @@ Require Import PyBase Solver SolverFacts SolverF.
 Open Scope Z_scope.
 
 (* one check variable (row 0), three periods; period 1 scripted: passes write 1.0, 1.5, 1.5, 1.5 *)
-Definition ex_desc : mdesc := mkDesc [0%nat] [0%nat].
+Definition ex_desc : mdesc := mkDesc [0%nat] [0%nat] 0%nat 0%nat.
 Definition ex_state : fstate := mkState [[0%float; 0%float; 0%float]] [Unsolved; Unsolved; Unsolved] [-1; -1; -1] [].
 Definition ex_scripts : scripts :=
   [(1%nat, mkPS [] [[ASet 0 1%float]; [ASet 0 1.5%float]; [ASet 0 1.5%float]; [ASet 0 1.5%float]] [])].
@@ -24,7 +24,7 @@ Example ex_hypotheses_satisfiable :
   let ev := s_ev 3 ex_scripts in let before := s_before 3 ex_scripts in let after := s_after 3 ex_scripts in
   let c0 := get_check float fzero ex_desc (vals_of s) p in
   let v1 := vals_of s in
-  min_iter o <= max_iter o /\ 0 < max_iter o /\ py_pos (length (status s)) t = Some p /\ offset o = 0 /\
+  min_iter o <= max_iter o /\ 0 < max_iter o /\ py_pos (length (status s)) t = Some p /\ feasible ex_desc (length (status s)) p = true /\ offset o = 0 /\
   before t (errors o) (catch_first o) 0%nat (vals_of s) = (v1, None) /\
   (forall i, (1 <= i <= 4)%nat -> snd (evk float ev o t i (st_after float ev o t v1 (i - 1))) = None) /\
   (forall i, (i <= 4)%nat -> all_finite float fisfin (chkseq float fzero ev ex_desc o t p c0 v1 i) = true) /\
